@@ -6,6 +6,8 @@ import Pff.Model.Tamper
 import Pff.Model.Layout
 import Pff.Model.GF
 import Pff.Model.Facade
+import Pff.Model.Merge
+import Pff.Model.Rfigc
 /-!
 Line-protocol driver: one request per line on stdin, one canonical reply per line on stdout.
 Run with `lake env lean --run Pff/Driver.lean`. Byte strings are hex ("-" = empty); lists of
@@ -92,8 +94,130 @@ def withCodec (algo n k : Nat) (f : {p : Pff.GF.Params} → Pff.Facade.Codec (Pf
     else "bad-field"
   | none => "bad-algo"
 
+/-- replica tokens `pathhex:contenthex`, path components separated by `/` (hex of the utf-8 path) -/
+def hexToString (h : String) : Option String := do
+  let bytes ← parseHex h
+  String.fromUTF8? (ByteArray.mk (bytes.map (·.toUInt8)).toArray)
+
+def parseReplica (toks : List String) : Option Pff.Merge.Tree :=
+  toks.foldlM (fun t tok => match tok.splitOn ":" with
+    | [p, c] => do
+      let ps ← hexToString p
+      let cs ← parseHex c
+      some (Pff.Merge.insertPath t (ps.splitOn "/") cs)
+    | _ => none) (Pff.Merge.Tree.node [] [])
+
+def splitAll (sep : String) (toks : List String) : List (List String) :=
+  toks.foldr (fun t acc => if t == sep then [] :: acc else match acc with
+    | [] => [[t]]
+    | a :: rest => (t :: a) :: rest) [[]]
+
+def strHex (s : String) : String := toHex (s.toUTF8.toList.map (·.toNat))
+
+/-! ### rfigc (`pff hash`) -/
+
+/-- `os.path.splitext(path)[1]` on a posix relative path -/
+def extOfPath (p : String) : String :=
+  let base := (p.splitOn "/").getLast!
+  let cs := base.toList
+  let lead := cs.takeWhile (· == '.')
+  let rest := cs.drop lead.length
+  match rest.reverse.findIdx? (· == '.') with
+  | none => ""
+  | some i => String.ofList (rest.drop (rest.length - 1 - i))
+
+/-- hash table token `contenthex:md5:sha1` (digests as decimal numbers) -/
+def parseHT (toks : List String) : Option (List (List Nat × Nat × Nat)) :=
+  toks.mapM (fun t => match t.splitOn ":" with
+    | [c, a, b] => do some ((← parseHex c), (← a.toNat?), (← b.toNat?))
+    | _ => none)
+
+def envOf (ht : List (List Nat × Nat × Nat)) : Pff.Rfigc.Env :=
+  { H := fun c => match ht.find? (fun e => e.1 == c) with
+      | some e => e.2
+      | none => (0, 0)
+    extOf := extOfPath
+    roundSec := fun ns => (ns + 500000000) / 1000000000 }
+
+/-- file token `pathhex:contenthex:mtime_ns` -/
+def parseFiles (toks : List String) : Option Pff.Rfigc.Tree :=
+  toks.mapM (fun t => match t.splitOn ":" with
+    | [p, c, m] => do some { path := (← hexToString p), content := (← parseHex c), mtime := (← m.toNat?) }
+    | _ => none)
+
+def showRowsCore (rows : List Pff.Rfigc.Row) : String :=
+  let strs := rows.map (fun r => s!"{strHex r.path}:{r.md5}:{r.sha1}:{r.size}:{strHex r.ext}")
+  let sorted := strs.toArray.qsort (· < ·) |>.toList
+  if sorted.isEmpty then "-" else ",".intercalate sorted
+
+def parseInput (s : String) : Option Pff.Rfigc.Input :=
+  if s == "-" then some .folder else (hexToString s).map .file
+
+def parseOp (t : String) : Option Pff.Rfigc.Op :=
+  match t.splitOn ":" with
+  | ["A", p, c, m] => do some (.add { path := (← hexToString p), content := (← parseHex c), mtime := (← m.toNat?) })
+  | ["D", p] => do some (.delete (← hexToString p))
+  | ["U", a, r, i] => do some (.update (a == "1") (r == "1") (← parseInput i))
+  | _ => none
+
 def handle (toks : List String) : String :=
   match toks with
+  | "rfcheck" :: m :: sm :: sh :: inp :: rest =>
+    -- rest = TREE0 ; TREE1 ; HASHTABLE   (db = genDb TREE0, checked against TREE1)
+    match splitAll ";" rest, parseInput inp with
+    | [t0, t1, ht], some inp =>
+      match parseFiles t0, parseFiles t1, parseHT ht with
+      | some t0, some t1, some ht =>
+        let E := envOf ht
+        let o : Pff.Rfigc.CheckOpts := { noMtime := m == "1", skipMissing := sm == "1", skipHash := sh == "1" }
+        let r := Pff.Rfigc.check E o (Pff.Rfigc.genDb E t0) t1 inp
+        let rep := if r.reported.isEmpty then "-" else ",".intercalate (r.reported.map strHex)
+        s!"{r.exit} {rep}"
+      | _, _, _ => "bad-op"
+    | _, _ => "bad-op"
+  | "rfhist" :: rest =>
+    -- rest = TREE0 ; OPS ; HASHTABLE ; reply: core rows after every update op
+    match splitAll ";" rest with
+    | [t0, ops, ht] =>
+      match parseFiles t0, ops.mapM parseOp, parseHT ht with
+      | some t0, some ops, some ht =>
+        let E := envOf ht
+        let s0 : Pff.Rfigc.State := { tree := t0, db := Pff.Rfigc.genDb E t0 }
+        let (_, outs) := ops.foldl (fun (acc : Pff.Rfigc.State × List String) op =>
+          let s' := Pff.Rfigc.step E acc.1 op
+          match op with
+          | .update _ _ _ => (s', acc.2 ++ [showRowsCore s'.db])
+          | _ => (s', acc.2)) (s0, [showRowsCore s0.db])
+        " | ".intercalate outs
+      | _, _, _ => "bad-op"
+    | _ => "bad-op"
+  | "rfscrape" :: rest =>
+    -- rest = ORIG ; SCRAPED contents (hex) ; HASHTABLE
+    match splitAll ";" rest with
+    | [t0, sc, ht] =>
+      match parseFiles t0, sc.mapM parseHex, parseHT ht with
+      | some t0, some sc, some ht =>
+        let E := envOf ht
+        let db := Pff.Rfigc.genDb E t0
+        let paths := ((Pff.Rfigc.scrapeWrites E db sc).map (·.path)).eraseDups
+        let outs := paths.filterMap (Pff.Rfigc.scrapeOutput E db sc)
+        let strs := outs.map (fun o => s!"{strHex o.path}:{toHex o.content}:{o.mtime}")
+        let sorted := strs.toArray.qsort (· < ·) |>.toList
+        if sorted.isEmpty then "-" else " ".intercalate sorted
+      | _, _, _ => "bad-op"
+    | _ => "bad-op"
+  | "dup" :: bs :: rest =>
+    match bs.toNat?, (splitAll ";" rest).mapM parseReplica with
+    | some bs, some reps =>
+      let r := Pff.Merge.dup bs reps
+      let rows := (r.files.zip r.used).map (fun fu =>
+        s!"{strHex ("/".intercalate fu.1.1)}:{toHex fu.1.2}:{showNums fu.2.2}")
+      s!"{r.exit} {" ".intercalate rows}"
+    | _, _ => "bad-op"
+  | "walk" :: rest =>
+    match parseReplica rest with
+    | some t => " ".intercalate ((Pff.Merge.walk t).map (fun pc => strHex ("/".intercalate pc.1)))
+    | none => "bad-op"
   | ["gfmul", prim, a, b] =>
     match prim.toNat?, a.toNat?, b.toNat? with
     | some prim, some a, some b =>
